@@ -46,6 +46,8 @@ def entry(n, raw, names, modname, in_class):
             e['wrap'], f = 2, raw.__func__
         elif isinstance(raw, property):
             e['wrap'], f = 3, raw.fget
+        while e['wrap'] in (1, 2) and isinstance(f, (staticmethod, classmethod)):
+            f = f.__func__          # staticmethod(staticmethod(f)): the outer wrapper is what the class namespace holds
     if isinstance(f, types.FunctionType):
         e['t'] = 'F'
         e['async'] = inspect.iscoroutinefunction(f)
